@@ -162,7 +162,7 @@ def mc_sim(name, cfg, consts, num, depth, seed, workers=4, threads=8, timeout=15
             "walk": w, "violations": viols}
 
 
-def mc_pipe(name, module, cfgtext, driver_args, summary_tag, workers=10, timeout=1500, expect_cases=None):
+def mc_pipe(name, module, cfgtext, driver_args, summary_tag, workers=10, timeout=1500, expect_cases=None, simulate=None):
     """Runs TLC on a stateless enumeration module whose ACTION_CONSTRAINT prints one case per
     transition and pipes the cases into a harness driver.  Returns TLC stats, driver summary,
     violations."""
@@ -175,6 +175,8 @@ def mc_pipe(name, module, cfgtext, driver_args, summary_tag, workers=10, timeout
     viol = os.path.join(OUT, "tlc", name + ".viol")
     tlc = ["timeout", str(timeout), "tlc", "-workers", str(workers), "-metadir", meta, "-cleanup", "-noGenerateSpecTE",
            "-config", cfgpath, module + ".tla"]
+    if simulate:      # (num, depth, seed): random walks instead of the breadth-first search (see mc_sim)
+        tlc[3:3] = ["-simulate", "num=%d" % simulate[0], "-depth", str(simulate[1]), "-seed", str(simulate[2])]
     t0 = time.time()
     env = dict(os.environ, JAVA_TOOL_OPTIONS="-Xss512m")
     p1 = subprocess.Popen(tlc, cwd=SPEC, stdout=subprocess.PIPE, stderr=subprocess.STDOUT, env=env)
@@ -188,6 +190,12 @@ def mc_pipe(name, module, cfgtext, driver_args, summary_tag, workers=10, timeout
     st["wall_s"] = round(time.time() - t0, 1)
     if rc1 == 124:
         raise ToolError("TLC timed out on %s" % name)
+    if simulate:
+        m = re.search(r"(\d+) states checked, (\d+) traces generated", tlctext)
+        if st.get("errors") or not m:
+            sys.stderr.write(tlctext[-3000:])
+            raise ToolError("TLC simulation failed on %s: %s" % (name, st.get("errors")))
+        st.update({"simulation": True, "states_checked": int(m.group(1)), "traces": int(m.group(2)), "completed": True})
     if not st.get("completed"):
         sys.stderr.write(tlctext[-3000:])
         raise ToolError("TLC did not complete cleanly on %s: %s" % (name, st.get("errors")))
